@@ -316,6 +316,9 @@ def tightest_lb(store, e, span=1 << 13):
     return store.lower_bound(e, -span, span)
 
 
+TRIPLE_MAX = 5
+
+
 def make_candidates(self, fr, M, leaves, states, step_consts, houdini):
     """template atoms over the generalised leaves entailed by every incoming state.
     Returns list of atoms ('le', expr) / ('div', leaf, m)."""
@@ -426,6 +429,15 @@ def make_candidates(self, fr, M, leaves, states, step_consts, houdini):
                 sm = (xa + xb) - (ea + eb)
                 cands.append(('le', sm))
                 cands.append(('le', -sm))
+    # small loops over integer leaves only: three-variable bounds  a + b <= c + k
+    ints = [l for l in leaves if l.kind == 'int']
+    if houdini and 3 <= len(ints) <= TRIPLE_MAX:
+        for i, a in enumerate(ints):
+            for b in ints[i + 1:]:
+                for c in ints:
+                    if c is a or c is b:
+                        continue
+                    consider(V(c.x) - V(a.x) - V(b.x))
     return cands
 
 
